@@ -303,7 +303,13 @@ func checkPairSite(e *Env, rule string, g *ssa.Function, site ssa.CallInstructio
 				"a duplicate key is not rejected (or the existing entry is overwritten): "+e.trace(w))
 			// … and the rejected caller must not remove the owner's entry: no removal of the key on that edge, no deferred removal armed before the registration
 			var rm []ssa.Instruction
-			qr := &core.PathQuery{Fn: g, From: loadedBlk.Instrs[0], Target: stop}
+			qr := &core.PathQuery{Fn: g, From: loadedBlk.Instrs[0], Target: func(in ssa.Instruction) bool {
+				// a removal executed, or armed by defer, on the rejected caller's way out
+				if d, isD := in.(*ssa.Defer); isD && dstop(d) {
+					return true
+				}
+				return stop(in)
+			}}
 			if stop(loadedBlk.Instrs[0]) {
 				rm = []ssa.Instruction{loadedBlk.Instrs[0]}
 			} else {
